@@ -213,7 +213,7 @@ static const char *ALG_VARIANTS[] = {
 static const int N_ALG_VARIANTS = (int)ARRAY_LEN(ALG_VARIANTS);
 // beyond the table: a known name followed by 256 or 512 more characters (a length difference an 8-bit
 // accumulator loses), and names with printf conversions (the name ends up in error messages)
-static const int N_ALG_VARIANTS_EXT = N_ALG_VARIANTS + 30 + 4;
+static const int N_ALG_VARIANTS_EXT = N_ALG_VARIANTS + 30 + 8;
 static std::string alg_variant(uint64_t sel)
 {
 	sel %= (uint64_t)N_ALG_VARIANTS_EXT;
@@ -223,7 +223,11 @@ static std::string alg_variant(uint64_t sel)
 	if (sel < 30)
 		return std::string(ALG_VARIANTS[sel % 15]) + std::string(256 * (1 + sel / 15), sel % 2 ? 'x' : ' ');
 	static const char *fmt[] = {"%s%s%s%s%n", "HS256%n", "none%s", "%999999d%n"};
-	return fmt[sel - 30];
+	if (sel - 30 < 4)
+		return fmt[sel - 30];
+	// a known name, an escaped NUL (\u0000 in the JSON text), more characters: a C string reader sees the known name
+	static const char *nul[] = {"none", "HS256", "RS256", "ES256"};
+	return std::string(nul[sel - 34]) + std::string(1, '\0') + "HS256";
 }
 
 static json_t *decode_json_seg(const std::string &seg)
@@ -374,8 +378,8 @@ std::string apply_mutation(const Step &m, std::string &tok, MutCtx &mc, bool &de
 		std::string algv = alg_variant((uint64_t)m.I("alg"));
 		switch (kind) {
 		case 0:
-			json_object_set_new(h, "alg", json_string(algv.c_str()));
-			desc += "(alg=" + algv + ")";
+			json_object_set_new(h, "alg", json_stringn(algv.data(), algv.size()));
+			desc += "(alg=" + show(algv, 24) + ")";
 			break;
 		case 1:
 			json_object_del(h, "alg");
@@ -483,16 +487,16 @@ std::string apply_mutation(const Step &m, std::string &tok, MutCtx &mc, bool &de
 			desc += strf("(alg=%s,signer=%lld)", algv.c_str(), (long long)m.I("signer"));
 		}
 	} else if (op == "none") {
-		int v = (int)m.I("variant") % 10;
+		int v = (int)m.I("variant") % 11;
 		static const std::string names[] = {"none", "None", "NONE", "none", "nOnE", "none", "none" + std::string(256, 'x'), "none" + std::string(512, ' '),
-						     "none%s%n", "none" + std::string(65536, 'e')};
+						     "none%s%n", "none" + std::string(65536, 'e'), std::string("none") + std::string(1, '\0') + "HS256"};
 		json_t *h = decode_json_seg(parts[0]);
 		if (!h || !json_is_object(h)) {
 			if (h)
 				json_decref(h);
 			h = json_object();
 		}
-		json_object_set_new(h, "alg", json_string(names[v].c_str()));
+		json_object_set_new(h, "alg", json_stringn(names[v].data(), names[v].size()));
 		if (v == 5)
 			json_object_del(h, "typ");
 		parts[0] = encode_json_seg(h, false);
@@ -670,7 +674,7 @@ Step gen_mutation(Rng &r, const std::string &bias)
 		m.set("from", (int64_t)r.below(64));
 	} else if (o == "hdr") {
 		m.set("kind", bias == "C02" ? (int64_t)r.pick(std::vector<int>{0, 0, 0, 0, 1, 2, 2, 6, 7}) : r.range(0, 7));
-		m.set("alg", (int64_t)(r.chance(1, 12) ? N_ALG_VARIANTS + r.below(34) : r.below((uint64_t)N_ALG_VARIANTS)));
+		m.set("alg", (int64_t)(r.chance(1, 10) ? N_ALG_VARIANTS + r.below(38) : r.below((uint64_t)N_ALG_VARIANTS)));
 		m.set("pos", (int64_t)r.below(100000));
 	} else if (o == "pay") {
 		m.set("kind", r.range(0, 4));
@@ -681,7 +685,7 @@ Step gen_mutation(Rng &r, const std::string &bias)
 		m.set("signer", bias == "C02" && r.chance(1, 4) ? 8 : r.range(0, 8));
 		m.set("other", (int64_t)r.below(16));
 	} else if (o == "none")
-		m.set("variant", r.chance(1, 4) ? r.range(6, 9) : r.range(0, 5));
+		m.set("variant", r.chance(1, 4) ? r.range(6, 10) : r.range(0, 5));
 	else if (o == "sigfill")
 		m.set("kind", r.range(0, 5));
 	else if (o == "esframe") {
@@ -836,6 +840,8 @@ extern "C" int world_cb(jwt_t *jwt, jwt_config_t *config)
 				json_decref(o);
 		}
 	}
+	if (c->passive)
+		return 0;
 	switch (c->mode) {
 	case 1:
 		config->key = c->key;
